@@ -8,7 +8,12 @@ class ToGFA2:
       if isinstance(oline.line, gfapy.line.segment.GFA1):
         items.append(str(oline))
       elif isinstance(oline.line, gfapy.line.edge.Link):
-        items.append(oline.line.eid + str(oline.orient))
+        link = oline.line
+        if not link.get("ID") and link.is_connected():
+          # the edge needs an identifier to be mentioned in the group
+          # (the same is done when the link itself is converted)
+          link.set("ID", link.gfa.unused_name())
+        items.append(str(link.eid) + str(oline.orient))
     a = ["O"]
     a.append(self.field_to_s("path_name"))
     a.append(" ".join(items))
